@@ -431,11 +431,16 @@ func (g *Gen) havocTarget(env *Env, st *State, m Expr) error {
 			}
 			return nil
 		}
-		if x.Name == "heap" {
+		if x.Name == "heap" || x.Name == "opaque_heap" {
 			saved := g.savePrivate(st)
-			// (stable fields are protected from opaque callees only; a contract that says "modifies heap" means it)
+			// stable fields are protected from opaque callees and from contracts that say "modifies opaque_heap";
+			// a contract that says "modifies heap" means all of it
+			stable := map[string]bool{}
+			if x.Name == "opaque_heap" {
+				stable = g.stableComps()
+			}
 			for _, k := range sortedKeys(g.compSort) {
-				if strings.HasPrefix(k, "G|") {
+				if strings.HasPrefix(k, "G|") || stable[k] {
 					continue
 				}
 				st.comps[k] = g.fresh("hv.C."+k, g.compSort[k])
